@@ -258,6 +258,11 @@ func (w *Worker) call(st *State, fv *FuncV, args []Value, depth int, site string
 
 func (w *Worker) run(f *frame, work *[]*frame, outs *[]Outcome) {
 	for {
+		if f.pan != nil && strings.HasPrefix(f.pan.runtime, "CUT:") {
+			// deliberate cut: the path is dropped and recorded as outside the claim
+			w.job.cut(f.pan.runtime[5:])
+			return
+		}
 		if f.pan != nil {
 			// unwinding: run remaining defers then emit the panic
 			if w.runDefers(f, work) {
